@@ -89,6 +89,27 @@ static void* helper_ptr(size_t n) {
   }
 }
 
+// ---- Win64 (ms_abi) callees called from a SysV function: 128-bit vectors are passed BY REFERENCE (the allocator makes stack copies) ----
+#if defined(__x86_64__)
+#include <emmintrin.h>
+static void trash_ms() {   // what a Win64 callee may destroy: rax rcx rdx r8-r11, xmm0-5
+  __asm__ volatile("pcmpeqd %%xmm0, %%xmm0\n pcmpeqd %%xmm1, %%xmm1\n pcmpeqd %%xmm2, %%xmm2\n pcmpeqd %%xmm3, %%xmm3\n pcmpeqd %%xmm4, %%xmm4\n pcmpeqd %%xmm5, %%xmm5\n"
+                   "mov $0x5a5a5a5a5a5a5a5a, %%rcx\n mov %%rcx, %%rdx\n mov %%rcx, %%r8\n mov %%rcx, %%r9\n mov %%rcx, %%r10\n mov %%rcx, %%r11\n"
+                   ::: "xmm0", "xmm1", "xmm2", "xmm3", "xmm4", "xmm5", "rcx", "rdx", "r8", "r9", "r10", "r11", "cc", "memory");
+}
+static inline void logv(std::vector<uint64_t>& v, __m128i x) { uint64_t t[2]; _mm_storeu_si128((__m128i*)t, x); v.push_back(t[0]); v.push_back(t[1]); }
+#define MS_FINISH(v) g_calls.push_back(v); uint64_t r = mix(v); trash_ms(); return r;
+__attribute__((ms_abi, noinline)) static uint64_t ms0(__m128i a, uint64_t b) { std::vector<uint64_t> v; logv(v, a); v.push_back(b); MS_FINISH(v) }
+__attribute__((ms_abi, noinline)) static uint64_t ms1(uint64_t a, __m128i b, uint64_t c, __m128i d) { std::vector<uint64_t> v; v.push_back(a); logv(v, b); v.push_back(c); logv(v, d); MS_FINISH(v) }
+__attribute__((ms_abi, noinline)) static uint64_t ms2(__m128i a, __m128i b, __m128i c, __m128i d) { std::vector<uint64_t> v; logv(v, a); logv(v, b); logv(v, c); logv(v, d); MS_FINISH(v) }
+__attribute__((ms_abi, noinline)) static uint64_t ms3(__m128i a, uint64_t b, uint64_t c, __m128i d, uint64_t e, uint64_t f) { std::vector<uint64_t> v; logv(v, a); v.push_back(b); v.push_back(c); logv(v, d); v.push_back(e); v.push_back(f); MS_FINISH(v) }
+static void* ms_helper_ptr(size_t k) { switch (k) { case 0: return (void*)ms0; case 1: return (void*)ms1; case 2: return (void*)ms2; case 3: return (void*)ms3; default: return nullptr; } }
+static const char* ms_helper_sig(size_t k) { static const char* s[] = {"vu", "uvuv", "vvvv", "vuuvuu"}; return k < 4 ? s[k] : ""; }
+#else
+static void* ms_helper_ptr(size_t) { return nullptr; }
+static const char* ms_helper_sig(size_t) { return ""; }
+#endif
+
 struct TypeInfo { const char* name; TypeId id; };
 static const TypeInfo kTypes[] = {
   {"i8", TypeId::kInt8}, {"u8", TypeId::kUInt8}, {"i16", TypeId::kInt16}, {"u16", TypeId::kUInt16},
@@ -298,6 +319,22 @@ struct Builder {
       if (w.at(3) == "z") cc->add_inst_options(InstOptions::kX86_ZMask);
       check(cc->emit_op_array(inst_id(w.at(1)), ops, n), ("emit " + w[1]).c_str());
       tag_new_nodes(before);
+    } else if (k == "callw") {
+      // executed call of a Win64 (ms_abi) callee: callw <helper index> <ret reg|-> <operand>*   (argument types fixed by the helper)
+      size_t hk = size_t(atoi(w.at(1).c_str()));
+      std::string hs = ms_helper_sig(hk);
+      if (hs.empty() || hs.size() != w.size() - 3) throw Fail{"bad callw"};
+      FuncSignature sig(CallConvId::kX64Windows);
+      sig.set_ret(TypeId::kUInt64);
+      for (char c : hs) sig.add_arg(c == 'v' ? TypeId::kInt32x4 : TypeId::kUInt64);
+      InvokeNode* inv = nullptr;
+      check(cc->add_invoke_node(Out<InvokeNode*>(inv), InstId(x86::Inst::kIdCall), Imm(uint64_t(uintptr_t(ms_helper_ptr(hk)))), sig), "invoke");
+      for (size_t i = 0; i < hs.size(); i++) {
+        Operand o = operand(w[i + 3]);
+        if (o.is_imm()) inv->set_arg(i, o.as<Imm>()); else inv->set_arg(i, o.as<Reg>());
+      }
+      if (w[2] != "-") inv->set_ret(0, reg_view(w[2]));
+      tag_new_nodes(before);
     } else if (k == "callx") {
       // call with an explicit convention and typed arguments (never executed): callx <cdecl|win64|vectorcall> <type=reg|-> <type=operand>*
       no_exec = true;
@@ -453,6 +490,7 @@ struct Dumper {
         {
           std::string tg = op_str(inv->target(), nullptr);
           if (inv->target().is_imm()) for (size_t k = 0; k <= 12; k++) if (uint64_t(uintptr_t(helper_ptr(k))) == inv->target().as<Imm>().value_as<uint64_t>()) tg = "I:helper" + std::to_string(k);
+          if (inv->target().is_imm()) for (size_t k = 0; k < 4; k++) if (ms_helper_ptr(k) && uint64_t(uintptr_t(ms_helper_ptr(k))) == inv->target().as<Imm>().value_as<uint64_t>()) tg = "I:mshelper" + std::to_string(k);
           tok(tg);
         }
         tok(std::to_string(inv->arg_count()));
